@@ -19,21 +19,25 @@ CHECKS = {
     'C02': dict(text='Listing = nodes sorted by path key: permutation of the inserted nodes, parents first, insertion adds exactly one '
                      'entry (theorems); the implementation\'s listing is compared with the model and with a shadow multiset of added '
                      'leaves, causality and stability are checked on its own objects. Known finding R23 (group relation after nested '
-                     'unrolling).', ref='DESIGN.md §4 C02'),
+                     'unrolling). add_to_graph is proved equal to its SOURCE TEXT as a decision table of recorded effects, and the same table '
+                     'is proved to drive the model function World.addToGraph.', ref='DESIGN.md §4 C02, §2.3b'),
     'C03': dict(text='History independence: observers of the model are idempotent on the heap they leave (theorems, partial for the full '
                      'frame statement); every generated history is replayed on the implementation with and without its intermediate '
-                     'observations and the final answers compared. Known finding R3 (attributed by the identity-keyed twin of the model).', ref='DESIGN.md §4 C03'),
+                     'observations and the final answers compared. Proved: a second listing changes nothing in the heap; listing before add / '
+                     'add_sub_circuit (restricted) gives the same heap after the next listing. The listing loop is proved equal to its SOURCE TEXT. '
+                     'Known finding R3 (attributed by the identity-keyed twin of the model).', ref='DESIGN.md §4 C03, §2.3b'),
     'C04': dict(text='(lead, span) evaluator: span = latest end − earliest start over the node intervals, nested blocks shifted by their '
                      'lead (theorems); implementation (after the R2 repair) compared with the model and with the span recomputed from '
-                     'its own reported times on forced and random programs.', ref='DESIGN.md §4 C04'),
+                     'its own reported times on forced and random programs. _lead_and_span is proved equal to its SOURCE TEXT (running min/max from '
+                     '±infinity = leadSpan).', ref='DESIGN.md §4 C04, §2.3b'),
     'C05': dict(text='Per-class copy keeps every field and the relation type (theorems, all 26 classes); graph level: the copy\'s relation tree is '
                      'the image of the original\'s with every internal relation re-pointed (theorems for flat and nested blocks under the '
-                     'hypotheses that exclude the known findings R3/R24); graph-level faithfulness is also '
+                     'hypotheses that exclude the known findings R3/R24); the copy loop is proved equal to its SOURCE TEXT; graph-level faithfulness is also '
                      'checked on the implementation at every copy/nesting/unrolling (sequence, positional relation targets, relative '
                      'schedule, independence under later mutations) and against the model. Known findings R3, R24, R14.', ref='DESIGN.md §4 C05'),
     'C06': dict(text='Unrolling: counts reset, idempotence, untouched outside operations, n·T for blocks whose last-ending operation is a '
                      'leaf and the unrolled multiset are checked on the implementation at every apply_modifiers and against the model; '
-                     'the selection of the latest leaf (pickLatest), n·T for a chain and the heap-level unrolling are proved: for every tree-shaped heap (which the API builds) each leaf occurs product-of-enclosing-counts times, all counts are reset, outside objects are untouched, a second application writes nothing (unroll_counts, unroll_twice). Library concatenation clause evaluated on the '
+                     'the selection of the latest leaf (pickLatest), n·T for a chain and the heap-level unrolling are proved: for every tree-shaped heap (which the API builds) each leaf occurs product-of-enclosing-counts times, all counts are reset, outside objects are untouched, a second application writes nothing (unroll_counts, unroll_twice); extend / repeat / apply_modifiers_to_self are proved equal to their SOURCE TEXT (recorded effects). Library concatenation clause evaluated on the '
                      'constructors: known finding R5.',
                 ref='DESIGN.md §4 C06'),
     'C07': dict(text='Two-counter acquisition scan: circuit index = position, qubit index = rank, filters and tag partition are theorems '
@@ -41,8 +45,8 @@ CHECKS = {
                      'and with the enumeration predicate, with index reads between the mutations. The scan is proved equal to the SOURCE '
                      'TEXT of AcquisitionRegistry.get_registry_at. Known findings R3, R15.', ref='DESIGN.md §4 C07, §2.3b'),
     'C08': dict(text='Stim export: translate table, detector/observable record targets, export = image of the count-expanded listing and '
-                     '= filterMap translate of the listing when all counts are 1 (theorems, any nesting); multiset clause proved relative '
-                     'to C06; exports compared instruction-wise with the model before/after unrolling and flattening. Library clause: '
+                     '= filterMap translate of the listing when all counts are 1 (theorems, any nesting); multiset clause before/after unrolling proved for tree-shaped heaps with counts ≥ 1 '
+                     '(export_multiset_unroll); exports compared instruction-wise with the model before/after unrolling and flattening. Library clause: '
                      'known finding R5. Detector / observable / coordinate-shift instructions proved equal to their SOURCE TEXT.', ref='DESIGN.md §4 C08, §2.3b'),
     'C09': dict(text='Product-state semantics of the exported gate set; protocol record, prepared states, detector and observable values '
                      'proved for ALL cycle counts and ALL computational initial states over a kernel-checked table of 460 descriptions '
@@ -53,15 +57,16 @@ CHECKS = {
                      'library heaps (partial: ≤ 110 objects, as constructed); constructors × random duration settings on the '
                      'implementation and through the recorder + model.', ref='DESIGN.md §4 C10'),
     'C11': dict(text='Flatten: leaf multiset, no remaining sub-circuit and idempotence are checked on the implementation at every flatten '
-                     'of implicitly sequenced programs and against the model; flatten_listing_perm / flatten_no_composite and idempotence (same listing, same schedule, for circuits without group links among the listed operations) are theorems; library '
+                     'of implicitly sequenced programs and against the model; flatten_listing_perm / flatten_no_composite and idempotence (same listing, same schedule, for circuits without group links among the listed operations) are theorems; apply_flatten_to_self is proved equal to its SOURCE TEXT; library '
                      'clause evaluated on the constructors incl. the multi-round one. Known findings R14, R5, R25, R3.', ref='DESIGN.md §4 C11'),
     'C12': dict(text='Index kernels: contiguity, disjointness, tiling, category cover, translation by the cycle length and the estimate '
                      'inverse proved for every rounds list / heralded / calibration flag / repetitions; exhaustive correspondence over all '
                      'lists of ≤ 4 distinct rounds in {0..5}. Every member of the three kernel classes is proved equal to its SOURCE TEXT '
                      '(34 theorems over regenerated mini-Python syntax).', ref='DESIGN.md §4 C12, §2.3b'),
     'C13': dict(text='Per-ancilla tag sequence of the multi-round experiment circuit vs kernel getters: kernel_eq_circuit proved for every '
-                     'rounds list; real circuits (d ∈ {2,3}, thorough ≤ 5) compared with real kernels, the Lean tag model and the Lean '
-                     'kernel model.', ref='DESIGN.md §4 C13'),
+                     'rounds list; the tag sequence is derived from the program model of the constructor (program_tag_sequence, all cycle counts); '
+                     'real circuits (d ∈ {2,3}, thorough ≤ 5), built after other library constructors ran in the same process, compared '
+                     'with real kernels, the Lean tag model and the Lean kernel model.', ref='DESIGN.md §4 C13'),
     'C14': dict(text='Noise dressing: strip_dress, measurement arguments, block/idle structure proved for every instruction list and '
                      'settings; probability bounds proved over the reals (Mathlib exp); dressed circuits compared structurally with the '
                      'model and numerically (1e-12) with the formula.', ref='DESIGN.md §4 C14'),
